@@ -193,6 +193,19 @@ fn seed_class(rng: &mut Rng, idx: u64) -> (u64, &'static str) {
     }
 }
 
+/// The data of `t` is nested exactly as `dims` says (every list at level k has dims[k] entries;
+/// below an empty list there is nothing to check).
+fn nested_as(t: &Tensor, dims: &[usize]) -> bool {
+    use neurons::tensor::Data;
+    match (&t.data, dims.len()) {
+        (Data::Single(v), 1) => v.len() == dims[0],
+        (Data::Double(v), 2) => v.len() == dims[0] && v.iter().all(|r| r.len() == dims[1]),
+        (Data::Triple(v), 3) => v.len() == dims[0] && v.iter().all(|c| c.len() == dims[1] && c.iter().all(|r| r.len() == dims[2])),
+        (Data::Quadruple(v), 4) => v.len() == dims[0] && v.iter().all(|f| f.len() == dims[1] && f.iter().all(|c| c.len() == dims[2] && c.iter().all(|r| r.len() == dims[3]))),
+        _ => false,
+    }
+}
+
 impl Monitor for C18 {
     fn id(&self) -> &'static str {
         "C18"
@@ -204,7 +217,7 @@ impl Monitor for C18 {
         }
     }
     fn rule(&self) -> &'static str {
-        "states_*: one case per chunk of seeds s; create(s) + one draw visits generator state 48271*s mod m (a bijection on [1,m-1]); per state: generate() over a 12-pair (min,max) panel (incl. two intervals whose width overflows f32) must be finite and in [min,max], shuffle(len 1) and shuffle(len 2..6) must return a permutation without panicking, states whose unit draw is >= 0.999999 are swept over every len 1..200; distinct = number of distinct states visited. seeds: seed classes (0, 1, small, around m, multiples of m, 2^32, >3.8e14, u64::MAX, timestamps) x lengths 0..200: no panic, permutation (index vectors; vectors with repeated entries and vectors with entries of any magnitude - 64-bit hashes, usize::MAX - k, powers of two up to 2^63: same multiset), purity (same seed twice; same seed while a second generator draws and shuffles in between). clock: Tensor::random's possible clock seeds (subsec_micros in [0,1e6)) replayed through Generator for 256 draws. tensor_random: Tensor::random itself for every rank; every third request follows a request for a shape the library refuses (rank 5 / nested), which must not disturb it."
+        "states_*: one case per chunk of seeds s; create(s) + one draw visits generator state 48271*s mod m (a bijection on [1,m-1]); per state: generate() over a 12-pair (min,max) panel (incl. two intervals whose width overflows f32) must be finite and in [min,max], shuffle(len 1) and shuffle(len 2..6) must return a permutation without panicking, states whose unit draw is >= 0.999999 are swept over every len 1..200; distinct = number of distinct states visited. seeds: seed classes (0, 1, small, around m, multiples of m, 2^32, >3.8e14, u64::MAX, timestamps) x lengths 0..200: no panic, permutation (index vectors; vectors with repeated entries and vectors with entries of any magnitude - 64-bit hashes, usize::MAX - k, powers of two up to 2^63: same multiset), purity (same seed twice; same seed while a second generator draws and shuffles in between). clock: Tensor::random's possible clock seeds (subsec_micros in [0,1e6)) replayed through Generator for 256 draws. tensor_random: Tensor::random itself for every rank (extents 1..6; in every eighth request one extent, at any position, is 0: the empty nesting must come back as requested); every third request follows a request for a shape the library refuses (rank 5 / nested), which must not disturb it."
     }
     fn assumptions(&self) -> Vec<&'static str> {
         vec![
@@ -350,7 +363,12 @@ impl Monitor for C18 {
             }
             "tensor_random" => {
                 let mut rng = Rng::stream(seed, gen, idx);
-                let dims: Vec<usize> = (0..(1 + idx % 4)).map(|_| rng.range(1, 6)).collect();
+                let mut dims: Vec<usize> = (0..(1 + idx % 4)).map(|_| rng.range(1, 6)).collect();
+                // every eighth case: an empty tensor - one extent (any position) is zero
+                if idx % 8 == 5 {
+                    let k = rng.range(0, dims.len() - 1);
+                    dims[k] = 0;
+                }
                 // every third case: a request the library refuses (a shape it cannot initialise)
                 // comes first on this thread - the valid request after it must be served as usual
                 if idx % 3 == 1 {
@@ -386,7 +404,10 @@ impl Monitor for C18 {
                 match guard(|| Tensor::random(shape.clone(), lo, hi)) {
                     Err(m) => out.viol(&format!("tensor_random:panic:{}", classify_panic(&m)), format!("Tensor::random({:?},{},{}) panicked: {}", dims, lo, hi, short(&m, 160)), J::Null),
                     Ok(t) => {
-                        if shape_dims(&t.shape) != dims || nesting(&t) != Some(dims.clone()) {
+                        if dims.contains(&0) {
+                            out.count("empty_random_tensors_requested", 1);
+                        }
+                        if shape_dims(&t.shape) != dims || !nested_as(&t, &dims) {
                             out.viol("tensor_random:shape", format!("requested {:?}, got shape {:?} nesting {:?}", dims, shape_dims(&t.shape), nesting(&t)), J::Null);
                         }
                         let vals = crate::lib_build::flat(&t);
